@@ -139,17 +139,30 @@ pub fn run(r: &mut Report) {
     let kb = key(3);
     let l = layout(vec![step("a", 1, &[&ka], allow_all(), allow_all())], vec![], &[&ka], 30);
     let mut v = serde_json::to_value(&signed_layout(&l, &[&owner])).unwrap();
-    // file kb's key under ka's id
+    // file a key under an identifier that is not its own: another key's id, and every near-variant of its own id
     let kb_json = serde_json::to_value(kb.public()).unwrap();
     let ka_id = serde_json::to_value(ka.key_id()).unwrap().as_str().unwrap().to_string();
-    v["signed"]["keys"][&ka_id] = kb_json;
-    let parsed: Result<Metablock, _> = serde_json::from_str(&v.to_string());
-    match parsed {
-        Ok(mb) => {
-            let bad = match &mb.metadata { MetadataWrapper::Layout(l) => l.keys.iter().any(|(id, k)| id != k.key_id()), _ => true };
-            r.case("aliased-table-entry-dropped", json!({"entry": "key3 filed under id of key2"}), "no entry whose id differs from the key's own id", format!("bad_entry_present={}", bad), !bad);
+    let kb_id = serde_json::to_value(kb.key_id()).unwrap().as_str().unwrap().to_string();
+    let flip = |s: &str, i: usize| -> String { s.chars().enumerate().map(|(j, c)| if j == i { if c == '0' { '1' } else { '0' } } else { c }).collect() };
+    let mixed: String = kb_id.chars().enumerate().map(|(j, c)| if j % 2 == 0 { c.to_ascii_uppercase() } else { c }).collect();
+    let variants: Vec<(&str, String)> = vec![("id of another key", ka_id.clone()), ("own id in upper case", kb_id.to_ascii_uppercase()), ("own id in mixed case", mixed),
+        ("own id, first digit changed", flip(&kb_id, 0)), ("own id, last digit changed", flip(&kb_id, 63)), ("all zeros", "0".repeat(64)),
+        ("own id reversed", kb_id.chars().rev().collect())];
+    for (what, listed) in variants {
+        if listed == kb_id { continue; }
+        for keep_genuine in [false, true] {
+            let mut v = v.clone();
+            v["signed"]["keys"][&listed] = kb_json.clone();
+            if keep_genuine { v["signed"]["keys"][&kb_id] = kb_json.clone(); }
+            let parsed: Result<Metablock, _> = serde_json::from_str(&v.to_string());
+            match parsed {
+                Ok(mb) => {
+                    let bad: Vec<String> = match &mb.metadata { MetadataWrapper::Layout(l) => l.keys.iter().filter(|(id, k)| *id != k.key_id()).map(|(id, _)| format!("{:?}", id)).collect(), _ => vec!["not a layout".into()] };
+                    r.case("aliased-table-entry-dropped", json!({"entry": format!("key3 filed under: {}", what), "genuine_entry_also_listed": keep_genuine}), "no entry whose id differs from the key's own id", format!("bad entries: {:?}", bad), bad.is_empty());
+                }
+                Err(e) => r.case("aliased-table-entry-dropped", json!({"entry": what}), "parses (entry dropped) or is rejected", format!("rejected: {}", e), true),
+            }
         }
-        Err(e) => r.case("aliased-table-entry-dropped", json!({}), "parses (entry dropped) or is rejected", format!("rejected: {}", e), true),
     }
     let _ = KeyId::from_str;
 }
